@@ -553,6 +553,40 @@ func c17f(c *Ctx) {
 		} else {
 			c.add(Result{Instance: inst, Verdict: Discharged, Sites: sitePositions(calls), Detail: "sequencing call only after currentPool = newPool()", Witnesses: []Witness{f.WitDelete(stores[0].Node)}})
 		}
+		// once a pool has been rotated out, nobody but the sequencing function will ever fail or close it:
+		// every way out of the rotation function has to go through the sequencing call (seed C17-r1 put a
+		// fatal time check between the two: the waiters of the rotated pool were stranded)
+		inst2 := f.Name + " rotated pool is always handed to the sequencer"
+		isCall := func(p Point, _ ast.Node) bool {
+			for _, cl := range calls {
+				if cl.P == p {
+					return true
+				}
+			}
+			return false
+		}
+		bad := ""
+		for _, st := range stores {
+			exits := g.ReachAll(st.After(), Cut{Stop: isCall}, func(p Point, n ast.Node) bool {
+				if n == nil {
+					return true // falls off the end
+				}
+				_, isRet := n.(*ast.ReturnStmt)
+				return isRet && !isCall(p, n)
+			})
+			for _, e := range exits {
+				if e.I < len(e.B.Nodes) {
+					bad = f.Pos(e.B.Nodes[e.I])
+				} else {
+					bad = f.Pos(f.Body) + " (end of function)"
+				}
+			}
+		}
+		if bad != "" {
+			c.Bad(inst2, bad, "the rotation function can return after taking the current pool out of service without passing it to the sequencing function: its done channel is never closed and its waiters never get an outcome")
+		} else {
+			c.add(Result{Instance: inst2, Verdict: Discharged, Evals: len(stores), Sites: sitePositions(calls), Detail: "no exit between currentPool = newPool() and the sequencing call"})
+		}
 	}
 }
 
